@@ -55,6 +55,12 @@ func (dm *DMap) deleteFromPreviousOwners(key string, owners []discovery.Member) 
 	// Traverse in reverse order. Except from the latest host, this one.
 	for i := len(owners) - 2; i >= 0; i-- {
 		owner := owners[i]
+		if owner.CompareByID(dm.s.rt.This()) {
+			// Background eviction also runs on a previous owner that has not handed its
+			// fragment over yet. The caller holds the lock of the local fragment and deletes
+			// the local copy itself: calling this member would wait for that lock forever.
+			continue
+		}
 		cmd := protocol.NewDelEntry(dm.name, key).Command(dm.s.ctx)
 		rc := dm.s.client.Get(owner.String())
 		err := rc.Process(dm.s.ctx, cmd)
